@@ -73,6 +73,10 @@ class Evaluator:
             raise Unknown(n.id)
         if isinstance(n, ast.Tuple):
             return tuple(self.ev(e) for e in n.elts)
+        if isinstance(n, ast.List):
+            return Desc("list", length=len(n.elts))       # a list display: a list of that many items
+        if isinstance(n, ast.IfExp):
+            return self.ev(n.body) if self.truth(self.ev(n.test)) else self.ev(n.orelse)
         if isinstance(n, ast.UnaryOp) and isinstance(n.op, ast.Not):
             return not self.truth(self.ev(n.operand))
         if isinstance(n, ast.BoolOp):
